@@ -103,6 +103,9 @@ type Event struct {
 	FailAt  int      `json:"failat"`
 	DevFail bool     `json:"devfail"`
 	WaitMs  int      `json:"waitms"`
+	EnvSync bool     `json:"envsync"`
+	// FailKind: kind of the collaborator call that was made to fail ("" if none / not reached)
+	FailKind string `json:"failkind"`
 	// Since: ms between the return of the last applied TransactionSet and the return of this call (-1: none)
 	Since int  `json:"since"`
 	Post  Post `json:"post"`
@@ -133,6 +136,7 @@ type Runner struct {
 }
 
 func (r *Runner) emit(e *Event) error {
+	e.EnvSync = !r.NoEnvSync
 	e.Intents = nz(e.Intents)
 	for i := range e.Intents {
 		e.Intents[i].Upd = nz(e.Intents[i].Upd)
@@ -427,6 +431,9 @@ func (r *Runner) collect(ev *Event, devFrom int) {
 	}
 	ev.Mods = r.absMods(r.cdeco.TakeModifies())
 	ev.NCalls = r.plan.Total()
+	if calls := r.plan.Calls(); ev.FailAt > 0 && ev.FailAt <= len(calls) {
+		ev.FailKind = calls[ev.FailAt-1]
+	}
 }
 
 func (r *Runner) txset(ctx context.Context, st *Step, ev *Event) error {
@@ -464,7 +471,9 @@ func (r *Runner) txset(ctx context.Context, st *Step, ev *Event) error {
 		repl, convErr = r.buildIntent(cctx, st.Replace)
 	}
 	if convErr != nil {
-		ev.Ret, ev.ErrMsg = "converr", convErr.Error()
+		// the conversion is part of the server's TransactionSet handling (pkg/server/transaction.go)
+		ev.Ret, ev.ErrMsg = "error", "conversion: "+convErr.Error()
+		r.stamp(ev, false)
 	} else {
 		t0 := time.Now()
 		resp, err := r.ds.D.TransactionSet(cctx, st.ID, tis, repl, tmo, st.Dry)
